@@ -7,6 +7,7 @@ import (
 
 	"golang.org/x/tools/go/ssa"
 
+	"gohbaseverif/bounds"
 	"gohbaseverif/kit"
 )
 
@@ -715,7 +716,7 @@ var heldAcrossTable = map[string]string{
 // mutex - API callers included - would block in Lock(), which watches no context), except the tabled sites;
 // and nothing on the Close path acquires a mutex that a tabled site holds across blocking (C19.R3: Close
 // would wait for a stuck network write).
-func noBlockingWhileLocked(c *kit.Ctx, closePath bool) {
+func noBlockingWhileLocked(c *kit.Ctx, closePath bool, closeEntries ...[3]string) {
 	p := c.P
 	sites := locksHeldAcrossBlocking(p)
 	heldAcross := map[*types.Var]string{}
@@ -752,9 +753,9 @@ func noBlockingWhileLocked(c *kit.Ctx, closePath bool) {
 		}
 		return
 	}
-	// Close path
+	// Close path / failure transition
 	var entries []*ssa.Function
-	for _, a := range [][3]string{{"", "client", "Close"}, {"region", "client", "Close"}} {
+	for _, a := range closeEntries {
 		if fn := c.Anchor(a[0], a[1], a[2]); fn != nil {
 			entries = append(entries, fn)
 		}
@@ -773,7 +774,7 @@ func noBlockingWhileLocked(c *kit.Ctx, closePath bool) {
 			}
 			m++
 			holder, bad := heldAcross[key.Field]
-			c.Check(!bad, fn, "close-takes-no-stuck-lock", in.Pos(), "mutex "+key.Field.Name()+" is never held across a blocking operation", "Close acquires "+key.Field.Name()+", which "+holder+" holds across a blocking network write: when the server stops reading, the write blocks with the mutex held, only closing the connection can release it - and Close now waits for the mutex first: Close never returns")
+			c.Check(!bad, fn, "close-takes-no-stuck-lock", in.Pos(), "mutex "+key.Field.Name()+" is never held across a blocking operation", "the Close path / failure transition acquires "+key.Field.Name()+", which "+holder+" holds across a blocking network write: when the server stops reading, the write blocks with the mutex held, only closing the connection can release it - which now waits for the mutex first: the connection is never closed, the sent calls are never failed, Close never returns")
 		})
 	}
 	if m == 0 {
@@ -841,4 +842,460 @@ func probeClassifiesOutcome(c *kit.Ctx) {
 		}, 0)
 		c.Check(good, fn, "probe-unclassified-is-established", r.Pos(), "an error is returned only where it was recognised as one of the three classes", "the probe reports 'not established' for an error outside the three classes (an application-level answer such as access denied on the probed row): the establisher loops for ever, the region never becomes available and every request waiting for it stays blocked")
 	})
+}
+
+// guardsAreTight: a length read off the wire is validated by a guard and then used in an unsigned
+// subtraction A - B (the length of what is left). The guard that protects the subtraction must be exactly
+// A - B >= 0: a stricter one (A - B >= 1, typically "<=" written for "<") rejects the boundary value - a field
+// of length zero, which the client's own encoder writes (empty qualifier of a family delete, empty value).
+// Shared by C10.R4, C06.R1 and C15.R1.
+func guardsAreTight(c *kit.Ctx, eng *bounds.Engine, fns []*ssa.Function) {
+	n := 0
+	for _, fn := range fns {
+		if fn == nil {
+			continue
+		}
+		kit.Instrs(fn, func(in ssa.Instruction) {
+			bo, ok := in.(*ssa.BinOp)
+			if !ok || bo.Op != token.SUB {
+				return
+			}
+			if bt, ok := bo.Type().Underlying().(*types.Basic); !ok || bt.Info()&types.IsUnsigned == 0 {
+				return
+			}
+			// only the end of a chain a - b - c - ...: the intermediate differences have slack by construction
+			for _, r := range kit.Referrers(bo) {
+				if nx, ok := r.(*ssa.BinOp); ok && nx.Op == token.SUB && nx.X == ssa.Value(bo) {
+					return
+				}
+			}
+			d := eng.Lin(bo.X).Sub(eng.Lin(bo.Y))
+			if _, isConst := d.IsConst(); isConst {
+				return
+			}
+			var tight, strict *bounds.Fact
+			facts := eng.FactsAt(bo.Block(), kit.InstrIndex(bo))
+			for i := range facts {
+				k, isConst := facts[i].E.Sub(d).IsConst()
+				if !isConst {
+					continue
+				}
+				if k == 0 {
+					tight = &facts[i]
+				}
+				if k < 0 {
+					strict = &facts[i]
+				}
+			}
+			if tight == nil && strict == nil {
+				return
+			}
+			n++
+			if strict != nil && tight == nil {
+				c.Bad(fn, "guard-tight", bo.Pos(), "the guard in front of this subtraction ("+strict.Why+") demands more than the subtraction needs: the boundary value - a field of length zero, e.g. the empty qualifier the client itself writes for a family delete - is rejected as malformed and the response that carries it can never be decoded", "")
+				return
+			}
+			c.OK(fn, "guard-tight", bo.Pos(), "protected by exactly A - B >= 0 ("+tight.Why+")")
+		})
+	}
+	if n == 0 {
+		c.Unk(nil, "guard-tight", token.NoPos, "no guarded unsigned subtraction found in the decoders this rule ranges over")
+	}
+}
+
+// ---------------------------------------------------------------------------------------------
+// the send path shares no mutable memory between requests
+
+// ptrOrigins classifies what a pointer/slice value can point into: "global" (a package-level object),
+// "recv-field" (state of the receiver), "fresh", "param", "call". Pointers loaded from a field of a local
+// object are resolved through the stores into that field in the same function.
+func ptrOrigins(fn *ssa.Function, v ssa.Value, depth int, seen map[ssa.Value]bool) map[string]ssa.Value {
+	out := map[string]ssa.Value{}
+	if depth > 6 || seen[v] {
+		return out
+	}
+	seen[v] = true
+	add := func(m map[string]ssa.Value) {
+		for k, x := range m {
+			out[k] = x
+		}
+	}
+	switch x := v.(type) {
+	case *ssa.Global:
+		out["global"] = x
+	case *ssa.Alloc, *ssa.MakeSlice, *ssa.MakeMap:
+		out["fresh"] = x
+	case *ssa.Parameter, *ssa.FreeVar:
+		out["param"] = x
+	case *ssa.Const:
+	case *ssa.Call:
+		if b, ok := x.Call.Value.(*ssa.Builtin); ok && b.Name() == "append" {
+			add(ptrOrigins(fn, x.Call.Args[0], depth+1, seen))
+			out["fresh"] = x
+			return out
+		}
+		out["call"] = x
+	case *ssa.Phi:
+		for _, e := range x.Edges {
+			add(ptrOrigins(fn, e, depth+1, seen))
+		}
+	case *ssa.FieldAddr:
+		add(ptrOrigins(fn, x.X, depth+1, seen))
+	case *ssa.IndexAddr:
+		add(ptrOrigins(fn, x.X, depth+1, seen))
+	case *ssa.Slice:
+		add(ptrOrigins(fn, x.X, depth+1, seen))
+	case *ssa.ChangeType:
+		add(ptrOrigins(fn, x.X, depth+1, seen))
+	case *ssa.Convert:
+		add(ptrOrigins(fn, x.X, depth+1, seen))
+	case *ssa.MakeInterface:
+		add(ptrOrigins(fn, x.X, depth+1, seen))
+	case *ssa.Extract:
+		out["call"] = x
+	case *ssa.UnOp:
+		if x.Op != token.MUL {
+			return out
+		}
+		switch a := x.X.(type) {
+		case *ssa.Global:
+			out["global"] = a
+		case *ssa.Alloc:
+			// local variable holding a pointer: the values stored into it
+			for _, r := range kit.Referrers(a) {
+				if st, ok := r.(*ssa.Store); ok && st.Addr == ssa.Value(a) {
+					add(ptrOrigins(fn, st.Val, depth+1, seen))
+				}
+			}
+		case *ssa.FieldAddr:
+			base := ptrOrigins(fn, a.X, depth+1, map[ssa.Value]bool{})
+			if _, isParam := base["param"]; isParam {
+				out["recv-field"] = a
+			}
+			if _, isGlobal := base["global"]; isGlobal {
+				out["global"] = a
+			}
+			// the values stored into this field of the same object in this function
+			fv := kit.FieldVar(a.X.Type(), a.Field)
+			kit.Instrs(fn, func(in ssa.Instruction) {
+				st, ok := in.(*ssa.Store)
+				if !ok {
+					return
+				}
+				fa, ok := st.Addr.(*ssa.FieldAddr)
+				if !ok || kit.FieldVar(fa.X.Type(), fa.Field) != fv {
+					return
+				}
+				// any object of this type built in this function (field-based, not object-based: the request
+				// structs are built by nested composite literals whose addresses are re-loaded from fields)
+				add(ptrOrigins(fn, st.Val, depth+1, seen))
+			})
+		case *ssa.IndexAddr:
+			add(ptrOrigins(fn, a.X, depth+1, seen))
+		}
+	}
+	return out
+}
+
+// sendPathSharesNoMemory: building and framing a request happens outside any lock, concurrently for all
+// callers of a connection (send runs on the batching goroutine and on every caller of an unbatched call).
+// Therefore, in the synchronous closure of send (every ToProto / SerializeCellBlocks, marshalProto, the
+// compressor): (a) nothing is written through a pointer or slice that lives in a package-level variable;
+// (b) no field of the connection or its compressor is written, and no buffer kept in such a field is filled,
+// unless a mutex is held; (c) what is handed to freeBuffer came from newBuffer (a package-level or otherwise
+// shared slice put into the pool is handed out again as somebody's scratch buffer). C05.R6, shared with C15.R2.
+func sendPathSharesNoMemory(c *kit.Ctx) {
+	p := c.P
+	send := c.Anchor("region", "client", "send")
+	if send == nil {
+		return
+	}
+	env := kit.NewLockEnv(p)
+	reach := p.SyncReach([]*ssa.Function{send}, nil)
+	nStores, nFree := 0, 0
+	isConnState := func(t types.Type) bool {
+		s := t.String()
+		return strings.HasSuffix(s, "region.client") || strings.HasSuffix(s, "region.compressor")
+	}
+	for _, fn := range reach.Order {
+		if fn.Pkg == nil && fn.Parent() == nil {
+			continue
+		}
+		kit.Instrs(fn, func(in ssa.Instruction) {
+			var addr ssa.Value
+			switch x := in.(type) {
+			case *ssa.Store:
+				addr = x.Addr
+			case *ssa.Call:
+				if b, ok := x.Call.Value.(*ssa.Builtin); ok && b.Name() == "copy" {
+					addr = x.Call.Args[0]
+				}
+				if kit.CalleeName(x) == kit.M("region", "", "freeBuffer") {
+					return
+				}
+			}
+			if addr == nil {
+				return
+			}
+			if _, isLocal := addr.(*ssa.Alloc); isLocal {
+				return
+			}
+			nStores++
+			org := ptrOrigins(fn, addr, 0, map[ssa.Value]bool{})
+			if g, bad := org["global"]; bad {
+				c.Bad(fn, "send-path-shares-no-memory", in.Pos(), "a request is built by writing into memory that lives in a package-level variable ("+kit.Path(g)+"): every later request that uses the same object goes out with this request's value, and concurrent senders race on it", "")
+				return
+			}
+			// (b) state of the connection
+			var base ssa.Value
+			switch a := addr.(type) {
+			case *ssa.FieldAddr:
+				base = a.X
+			default:
+				if f, isF := org["recv-field"]; isF {
+					base = f.(*ssa.FieldAddr).X
+				}
+			}
+			if base != nil {
+				if pa, isParam := kit.Root(base).(*ssa.Parameter); isParam && len(fn.Params) > 0 && pa == fn.Params[0] && fn.Signature.Recv() != nil && isConnState(fn.Signature.Recv().Type()) {
+					if len(env.At(in)) == 0 {
+						c.Bad(fn, "send-path-shares-no-memory", in.Pos(), "state of the connection is written while a request is being built, with no mutex held: requests are built concurrently (batching goroutine and every caller of an unbatched call), so one request's bytes end up in another's frame", "")
+						return
+					}
+				}
+			}
+		})
+		// (c)
+		for _, call := range kit.Calls(fn, kit.M("region", "", "freeBuffer")) {
+			nFree++
+			bad := bufferNotFromPool(p, fn, call.Common().Args[0], 0)
+			c.Check(bad == "", fn, "freed-buffer-came-from-the-pool", call.Pos(), "what is put into the buffer pool came out of newBuffer", "a buffer that did not come from the pool is put into it ("+bad+"): the pool hands it out again as the output buffer of a later request, which overwrites the shared memory")
+		}
+	}
+	if nStores == 0 || nFree == 0 {
+		c.Unk(send, "send-path-shares-no-memory", send.Pos(), "the closure of send contains no stores / no freeBuffer call: enumeration broken")
+	}
+}
+
+// bufferNotFromPool returns a description of a non-pool origin of slice v ("" if all origins are newBuffer or
+// slices grown from it).
+func bufferNotFromPool(p *kit.Prog, fn *ssa.Function, v ssa.Value, depth int) string {
+	if depth > 4 {
+		return ""
+	}
+	switch x := kit.Strip(v).(type) {
+	case *ssa.Phi:
+		for _, e := range x.Edges {
+			if s := bufferNotFromPool(p, fn, e, depth+1); s != "" {
+				return s
+			}
+		}
+		return ""
+	case *ssa.Slice:
+		return bufferNotFromPool(p, fn, x.X, depth+1)
+	case *ssa.Call:
+		if b, ok := x.Call.Value.(*ssa.Builtin); ok && b.Name() == "append" {
+			return bufferNotFromPool(p, fn, x.Call.Args[0], depth+1)
+		}
+		if kit.CalleeName(x) == kit.M("region", "", "newBuffer") {
+			return ""
+		}
+		if cal := kit.StaticCallee(x); cal != nil && p.IsSubject(cal) && len(cal.Blocks) > 0 {
+			bad := ""
+			kit.Instrs(cal, func(in ssa.Instruction) {
+				if r, ok := in.(*ssa.Return); ok && len(r.Results) > 0 && bad == "" {
+					bad = bufferNotFromPool(p, cal, kit.Res(r, 0), depth+1)
+				}
+			})
+			return bad
+		}
+		return ""
+	case *ssa.Extract:
+		if call, ok := x.Tuple.(*ssa.Call); ok {
+			if cal := kit.StaticCallee(call); cal != nil && p.IsSubject(cal) && len(cal.Blocks) > 0 {
+				bad := ""
+				kit.Instrs(cal, func(in ssa.Instruction) {
+					if r, ok := in.(*ssa.Return); ok && x.Index < len(r.Results) && bad == "" {
+						bad = bufferNotFromPool(p, cal, kit.Res(r, x.Index), depth+1)
+					}
+				})
+				return bad
+			}
+		}
+		return ""
+	case *ssa.UnOp:
+		if x.Op == token.MUL {
+			switch a := x.X.(type) {
+			case *ssa.Global:
+				return "the package-level variable " + a.Name()
+			case *ssa.FieldAddr:
+				return "the field " + kit.FieldVar(a.X.Type(), a.Field).Name() + " of a shared object"
+			case *ssa.Alloc:
+				for _, r := range kit.Referrers(a) {
+					if st, ok := r.(*ssa.Store); ok && st.Addr == ssa.Value(a) {
+						if s := bufferNotFromPool(p, fn, st.Val, depth+1); s != "" {
+							return s
+						}
+					}
+				}
+			}
+		}
+	}
+	return ""
+}
+
+// unsentCallsAreCleared: a call that multi.toProto leaves out of the request (its own context is done)
+// must be recognisable as "not sent" when the response arrives - by state fixed at serialisation time (the
+// cleared slot), not by a condition that can change in between (the context can expire after the request went
+// out, and then a perfectly valid response is rejected for the whole batch). Structural part: in the loop over
+// m.calls every way round that does not assign the call its action index stores nil into its slot.
+// Together with multiIndexValidated (the reader tests the slot for nil). C02.R4.
+func unsentCallsAreCleared(c *kit.Ctx) {
+	callsF := c.P.Field("region", "multi", "calls")
+	mtp := c.Anchor("region", "multi", "toProto")
+	if callsF == nil || mtp == nil {
+		return
+	}
+	n := 0
+	seenHdr := map[*ssa.BasicBlock]bool{}
+	kit.Instrs(mtp, func(in ssa.Instruction) {
+		// an element of m.calls read by the index of a loop over it (range or counted form)
+		ia, ok := in.(*ssa.IndexAddr)
+		if !ok || !isLoadOfField(kit.Root(ia.X), callsF) && !isLoadOfField(ia.X, callsF) {
+			return
+		}
+		if _, isR := rangeOfIndex(ia.Index); !isR {
+			return
+		}
+		var ph *ssa.Phi
+		switch x := kit.Strip(ia.Index).(type) {
+		case *ssa.Phi:
+			ph = x
+		case *ssa.BinOp:
+			ph, _ = x.X.(*ssa.Phi)
+		}
+		if ph == nil || seenHdr[ph.Block()] {
+			return
+		}
+		hdr := ph.Block()
+		var iff *ssa.If
+		// the loop test: in the header (counted form) or in the block of the incremented index (range form)
+		for _, b := range []*ssa.BasicBlock{hdr, ia.Index.(ssa.Instruction).Block()} {
+			if x, ok := b.Instrs[len(b.Instrs)-1].(*ssa.If); ok && iff == nil {
+				iff = x
+				hdr = b
+			}
+		}
+		if iff == nil {
+			return
+		}
+		seenHdr[ph.Block()] = true
+		body := kit.SuccOnTrue(iff)
+		n++
+		e := kit.PathFromBlock(body, kit.PathQuery{
+			Target: func(x ssa.Instruction) bool { return x.Block() == hdr },
+			Stop: func(x ssa.Instruction) bool {
+				st, ok := x.(*ssa.Store)
+				if !ok {
+					return false
+				}
+				ia, ok := st.Addr.(*ssa.IndexAddr)
+				if !ok {
+					return false
+				}
+				if _, isR := rangeOfIndex(ia.Index); !isR {
+					return false
+				}
+				// the slot cleared, or the action index of this call recorded
+				if isLoadOfField(ia.X, callsF) && kit.IsNilConst(kit.Root(st.Val)) {
+					return true
+				}
+				if sl, ok := ia.X.Type().Underlying().(*types.Slice); ok {
+					if bt, ok := sl.Elem().Underlying().(*types.Basic); ok && bt.Kind() == types.Uint32 {
+						return true
+					}
+				}
+				return false
+			},
+		})
+		c.Check(e == nil, mtp, "unsent-call-cleared", firstPos(body), "every way round the loop either records the call's action index or clears its slot", "a call can be left out of the multi request without its slot being cleared: whether it was sent can then only be guessed from a condition that changes over time (its context), so a valid response is rejected - or a missing one accepted - for the whole batch: "+c.BlockPath(e))
+	})
+	if n == 0 {
+		c.Unk(mtp, "unsent-call-cleared", mtp.Pos(), "the loop over m.calls in multi.toProto was not found")
+	}
+	eng := bounds.New(c.P)
+	ok, why := multiIndexValidated(c, eng)
+	c.Check(ok, mtp, "response-index-validated-against-cleared-slots", mtp.Pos(), "the reader validates every action index against the length of m.calls and the cleared slots", "the reader does not validate the action index of a result against the cleared slots of m.calls: "+why)
+}
+
+// lenFact reports whether fact f states that len(x) is zero (empty=true) or non-zero (empty=false) for a
+// slice x accepted by is.
+func lenFact(f kit.Fact, is func(ssa.Value) bool) (empty, ok bool) {
+	cmp, isCmp := kit.CanonCmp(f.Cond, f.Pol)
+	if !isCmp || cmp.Bytes {
+		return false, false
+	}
+	isLen := func(v ssa.Value) bool {
+		l := kit.LenOf(kit.Strip(v))
+		return l != nil && is(l)
+	}
+	x, y, op := cmp.X, cmp.Y, cmp.Op
+	if !isLen(x) {
+		x, y = y, x
+		op = map[token.Token]token.Token{token.LSS: token.GTR, token.GTR: token.LSS, token.LEQ: token.GEQ, token.GEQ: token.LEQ, token.EQL: token.EQL, token.NEQ: token.NEQ}[op]
+	}
+	if !isLen(x) {
+		return false, false
+	}
+	k, isK := kit.ConstInt(y)
+	if !isK {
+		return false, false
+	}
+	switch {
+	case (op == token.EQL || op == token.LEQ) && k == 0, op == token.LSS && k == 1:
+		return true, true
+	case (op == token.NEQ || op == token.GTR) && k == 0, op == token.GEQ && k == 1:
+		return false, true
+	}
+	return false, false
+}
+
+// noFetchedRowIsSkipped: once scanner.update has moved the scanner past a response, fetch asks the server
+// for more only if that response carried no results at all. Any other reason to go round the loop (a
+// heartbeat flag, a metrics-only response, ...) drops rows the server will not send again. C06.R2.
+func noFetchedRowIsSkipped(c *kit.Ctx) {
+	fetch := c.Anchor("", "scanner", "fetch")
+	resF := c.P.Field("pb", "ScanResponse", "Results")
+	if fetch == nil || resF == nil {
+		return
+	}
+	reqs := kit.Calls(fetch, kit.M("", "*scanner", "request"))
+	upds := kit.Calls(fetch, kit.M("", "*scanner", "update"))
+	if len(reqs) != 1 || len(upds) == 0 {
+		c.Unk(fetch, "no-fetched-row-skipped", fetch.Pos(), "fetch no longer has one request() and an update() of the scanner state")
+		return
+	}
+	resp := kit.ExtractOf(reqs[0].Value(), 0)
+	isResults := func(v ssa.Value) bool {
+		u, ok := v.(*ssa.UnOp)
+		if !ok || u.Op != token.MUL {
+			return false
+		}
+		fa, ok := u.X.(*ssa.FieldAddr)
+		return ok && kit.FieldVar(fa.X.Type(), fa.Field) == resF && kit.Root(fa.X) == kit.Root(resp)
+	}
+	for _, u := range upds {
+		e := kit.PathFrom(u.(ssa.Instruction), kit.PathQuery{
+			Target: func(x ssa.Instruction) bool { return x == reqs[0].(ssa.Instruction) },
+			SkipEdge: func(from, to *ssa.BasicBlock) bool {
+				for _, f := range kit.EdgeFacts(from, to) {
+					if empty, ok := lenFact(f, isResults); ok && empty {
+						return true
+					}
+				}
+				return false
+			},
+		})
+		c.Check(e == nil, fetch, "no-fetched-row-skipped", u.Pos(), "after update() the next request is sent only on the edge len(resp.Results) == 0", "fetch can ask the server for more although the response it has just accounted for carried results (e.g. because it is flagged as a heartbeat - a response cut short by the server's time limit may carry rows): those rows are dropped silently, the server-side scanner has moved past them: "+c.BlockPath(e))
+	}
 }
